@@ -100,11 +100,28 @@ enum EncOut {
     Panic,
 }
 
-fn run_encoder(chunks: &[Vec<u8>]) -> EncOut {
+/// what the caller does before `finish`
+#[derive(Debug, Clone, PartialEq)]
+enum Op {
+    Write(Vec<u8>),
+    Flush,
+}
+
+fn op_tok(op: &Op) -> String {
+    match op {
+        Op::Write(c) => hex(c),
+        Op::Flush => "flush".to_string(),
+    }
+}
+
+fn run_encoder(ops: &[Op]) -> EncOut {
     match guarded(|| -> std::io::Result<Vec<u8>> {
         let mut enc = Base64Encoder::new(Vec::new());
-        for c in chunks {
-            enc.write_all(c)?;
+        for op in ops {
+            match op {
+                Op::Write(c) => enc.write_all(c)?,
+                Op::Flush => enc.flush()?,
+            }
         }
         enc.finish()
     }) {
@@ -132,13 +149,87 @@ struct DecRun {
     end: End,
 }
 
-/// read with buffer sizes taken cyclically from `pattern` until end of input (a non-empty buffer gets
-/// `Ok(0)`), an error or a panic; then `extra` further reads (what the decoder does after the end).
-fn run_decoder(text: &[u8], sched: &Sched, pattern: &[usize], extra: usize) -> DecRun {
-    let mut dec =
+/// how the caller reads
+#[derive(Debug, Clone, PartialEq)]
+enum Dst {
+    /// `read` with buffer sizes taken cyclically from the pattern
+    Sizes(Vec<usize>),
+    /// `Read::read_to_end` (what `Image` deserialisation does): buffer sizes are chosen by std
+    ToEnd,
+    /// `Read::read_to_string`
+    ToString,
+}
+
+impl Dst {
+    fn json(&self) -> Value {
+        match self {
+            Dst::Sizes(p) => json!(p),
+            Dst::ToEnd => json!("read_to_end"),
+            Dst::ToString => json!("read_to_string"),
+        }
+    }
+}
+
+/// forwards to the real decoder and records every `read` call std makes (size offered, result)
+struct Spy<R> {
+    inner: R,
+    sizes: Vec<usize>,
+    trace: Vec<String>,
+}
+
+impl<R: Read> Read for Spy<R> {
+    fn read(&mut self, buf: &mut [u8]) -> std::io::Result<usize> {
+        self.sizes.push(buf.len());
+        // a panic unwinds through here: the entry is completed by the caller
+        let r = self.inner.read(buf);
+        match &r {
+            Ok(k) => self.trace.push(format!("ok:{}", hex(&buf[..(*k).min(buf.len())]))),
+            Err(_) => self.trace.push("err".to_string()),
+        }
+        r
+    }
+}
+
+/// `Sizes`: read until end of input (a non-empty buffer gets `Ok(0)`), an error or a panic; then `extra` further
+/// reads (what the decoder does after the end). `ToEnd` / `ToString`: one call of the std method, every `read`
+/// call it makes recorded.
+fn run_decoder(text: &[u8], sched: &Sched, dst: &Dst, extra: usize) -> DecRun {
+    let dec =
         Base64Decoder::new(SchedReader { data: text.to_vec(), pos: 0, sched: sched.0.clone(), tail: sched.1, call: 0 });
+    match dst {
+        Dst::Sizes(pattern) => run_sizes(dec, text.len(), pattern, extra),
+        Dst::ToEnd | Dst::ToString => {
+            let mut spy = Spy { inner: dec, sizes: vec![], trace: vec![] };
+            let mut bytes: Vec<u8> = Vec::new();
+            let r = guarded(|| {
+                if *dst == Dst::ToEnd {
+                    spy.read_to_end(&mut bytes).map(|_| ())
+                } else {
+                    let mut text = String::new();
+                    let r = spy.read_to_string(&mut text).map(|_| ());
+                    bytes = text.into_bytes();
+                    r
+                }
+            });
+            let end = match r {
+                Err(()) => {
+                    spy.trace.push("panic".to_string());
+                    End::Panic
+                }
+                Ok(Err(_)) => End::Error,
+                Ok(Ok(())) => End::Eof,
+            };
+            spy.sizes.truncate(spy.trace.len());
+            DecRun { sizes: spy.sizes, trace: spy.trace, bytes, end }
+        }
+    }
+}
+
+fn run_sizes<R: Read>(mut dec: Base64Decoder<R>, text_len: usize, pattern: &[usize], extra: usize) -> DecRun {
     let mut run = DecRun { sizes: vec![], trace: vec![], bytes: vec![], end: End::Pending };
-    let cap = 4 * text.len() + 64;
+    // a pattern has at least one non-empty buffer per `pattern.len() <= 8` reads: enough for every byte, the end
+    // and the extra reads
+    let cap = pattern.len().max(8) * (text_len + 1) + 64;
     let mut after = 0usize;
     let mut i = 0usize;
     let mut buf = vec![0u8; pattern.iter().copied().max().unwrap_or(0)];
@@ -221,15 +312,16 @@ fn split(data: &[u8], cuts: &[usize]) -> Vec<Vec<u8>> {
 }
 
 impl Ctx {
-    fn enc_case(&mut self, kind: &str, chunks: &[Vec<u8>]) {
-        let data: Vec<u8> = chunks.concat();
-        let got = run_encoder(chunks);
+    fn enc_case(&mut self, kind: &str, ops: &[Op]) {
+        let data: Vec<u8> = ops.iter().flat_map(|o| if let Op::Write(c) = o { c.clone() } else { vec![] }).collect();
+        let got = run_encoder(ops);
         let got_s = match &got {
             EncOut::Ok(v) => format!("ok {}", hex(v)),
             EncOut::IoErr => "ioerr".to_string(),
             EncOut::Panic => "panic".to_string(),
         };
-        let req = format!("c14 enc {}", chunks.iter().map(|c| hex(c)).collect::<Vec<_>>().join(" "));
+        let flushes = ops.contains(&Op::Flush);
+        let req = format!("c14 {} {}", if flushes { "encops" } else { "enc" }, ops.iter().map(op_tok).collect::<Vec<_>>().join(" "));
         let req = req.trim_end().to_string();
         self.out.case(&req, !data.is_empty());
         self.out.hist(&format!("enc:len%3={}", data.len() % 3));
@@ -246,7 +338,7 @@ impl Ctx {
         if got != EncOut::Ok(expected.clone()) {
             self.out.fail(
                 "Base64Encoder output differs from the RFC 4648 encoding of the written bytes",
-                json!({"op": "enc", "chunks": chunks.iter().map(|c| hex(c)).collect::<Vec<_>>(), "data": hex(&data)}),
+                json!({"op": "enc", "ops": ops.iter().map(op_tok).collect::<Vec<_>>(), "data": hex(&data)}),
                 json!(format!("ok {}", hex(&expected))),
                 json!(got_s),
             );
@@ -257,8 +349,8 @@ impl Ctx {
     }
 
     /// `plain`: `Some(d)` when `text` is the RFC encoding of `d` (round-trip obligation), `None` for arbitrary text
-    fn dec_case(&mut self, kind: &str, text: &[u8], plain: Option<&[u8]>, sched: &Sched, pattern: &[usize]) {
-        let run = run_decoder(text, sched, pattern, 2);
+    fn dec_case(&mut self, kind: &str, text: &[u8], plain: Option<&[u8]>, sched: &Sched, dst: &Dst) {
+        let run = run_decoder(text, sched, dst, 2);
         let req = format!("c14 dec {} {} {} {}", hex(text), csv(&sched.0), sched.1, csv(&run.sizes));
         let ans = if run.trace.is_empty() { "-".to_string() } else { run.trace.join(",") };
         self.out.case(&req, !text.is_empty());
@@ -275,14 +367,13 @@ impl Ctx {
         if self.seen.insert(req.clone()) {
             self.out.corr(&req, &ans);
         }
-        let interrupts = sched.0.contains(&0);
-        let input = json!({"op": "dec", "text": hex(text), "plain": plain.map(hex), "sched": sched.0, "tail": sched.1, "sizes": pattern});
+        let input = json!({"op": "dec", "text": hex(text), "plain": plain.map(hex), "sched": sched.0, "tail": sched.1, "sizes": dst.json()});
         if run.end == End::Panic {
             self.out.fail("Base64Decoder panics", input, json!("no panic"), json!(ans));
         } else if let Some(d) = plain {
-            // Interrupted is not part of the property's statement: schedules with interrupts are judged by
-            // the correspondence only
-            if !interrupts && (run.end != End::Eof || run.bytes != d) {
+            // schedules with `Interrupted` included: the contract of `Read` says such a call is to be retried,
+            // so the text must still decode to d (C14_decode covers them)
+            if run.end != End::Eof || run.bytes != d {
                 self.out.fail(
                     "decoding the RFC 4648 text of d through a chunked reader does not return d followed by end of input",
                     input,
@@ -290,7 +381,7 @@ impl Ctx {
                     json!(format!("{:?} {}", run.end, hex(&run.bytes))),
                 );
             }
-        } else if text.len() % 4 != 0 && !interrupts && run.end != End::Error {
+        } else if text.len() % 4 != 0 && run.end != End::Error {
             self.out.fail(
                 "text whose length is not a multiple of four is read to its end without an error",
                 input,
